@@ -342,6 +342,16 @@ def classify_exception(e):
       labels={'check': 'exception', 'exc': type(e).__name__, 'where': where})
 
 
+def run_dir():
+  """Scratch cwd of this check invocation (MuJoCo appends MUJOCO_LOG.TXT to the cwd); one per parent process so
+  that concurrent invocations do not remove each other's directories."""
+  d = os.environ.get('VERIF_RUN_DIR')
+  if not d:
+    d = os.path.join(ROOT, '.run', f'p{os.getpid()}')
+    os.environ['VERIF_RUN_DIR'] = d
+  return d
+
+
 def quiet_import_brax():
   """mujoco.mjx prints 'Failed to import warp' on import; keep stdout clean."""
   import contextlib
@@ -352,8 +362,7 @@ def quiet_import_brax():
 
 
 def _worker_init(x64_default):
-  os.makedirs(os.path.join(ROOT, '.run'), exist_ok=True)
-  d = os.path.join(ROOT, '.run', f'w{os.getpid()}')
+  d = os.path.join(run_dir(), f'w{os.getpid()}')
   os.makedirs(d, exist_ok=True)
   os.chdir(d)
   quiet_import_brax()
@@ -414,6 +423,7 @@ BUDGET_S = {'quick': 420.0, 'thorough': 2700.0}
 
 def run_check(prop, tier, seed, workers=None, only_kinds=None):
   t0 = time.time()
+  os.makedirs(run_dir(), exist_ok=True)
   mod = importlib.import_module(f'vf.checks.{prop.lower()}')
   budget = float(getattr(mod, 'BUDGET_S', BUDGET_S)[tier])
   deadline = t0 + budget
@@ -564,7 +574,8 @@ def finish(prop, mod, tier, seed, results, wall):
   for path, v in lines:
     print(f'  violation kind={v["kind"]} check={v["check"]}: {v["detail"][:400]}')
     print(f'VIOLATION property={prop} replay={path}')
-  shutil.rmtree(os.path.join(ROOT, '.run'), ignore_errors=True)
+  os.chdir(ROOT)
+  shutil.rmtree(run_dir(), ignore_errors=True)
   if lines:
     return 1
   if errors:
